@@ -28,6 +28,14 @@ Fixpoint procs (a : cid) (tr : list event) : list cid :=
   | _ :: t => procs a t
   end.
 
+(* the deliveries recorded in the trace (newest first) *)
+Fixpoint delivs (tr : list event) : list (cid * dest) :=
+  match tr with
+  | [] => []
+  | EvDeliver p d :: t => (p, d) :: delivs t
+  | _ :: t => delivs t
+  end.
+
 Record invA (P : params) (c : config) : Prop := {
   a_kp : forall p, p_kind P p = Direct -> ppc c p = PInit;
   a_ks : forall p, p_kind P p <> Direct -> spc c p = S0;
@@ -100,7 +108,8 @@ Record aq_frame (P : params) (c c' : config) : Prop := {
   f_spc : forall p, p_kind P p <> Direct -> spc c' p = spc c p;
   f_compl : forall p, p_kind P p <> Direct -> compl c' p = compl c p;
   f_enqs : forall a, enqs a (trace c') = enqs a (trace c);
-  f_procs : forall a, procs a (trace c') = procs a (trace c)
+  f_procs : forall a, procs a (trace c') = procs a (trace c);
+  f_delivs : delivs (trace c') = delivs (trace c)
 }.
 
 Lemma invA_frame : forall P c c', aq_frame P c c' -> invA P c -> invA P c'.
